@@ -19,7 +19,14 @@
    [T] in the second part is the unit table of the implementation as
    REGENERATED on every run from the imported module (work/C18/Gen_units.v:
    parent links and the factors unit_to_base(1), base_to_unit(1)); the
-   hypothesis [units_ok T = true] is re-proved for it by computation. *)
+   hypothesis [units_ok T = true] is re-proved for it by computation.
+   [K] in the second and third part is the record of the literals of the two
+   sensor drivers (divisors and source units of the sonar get() methods; scale,
+   offset, floor and except-value of pressure; floor, slope and offset of
+   calibrate), REGENERATED on every run from the source files
+   (work/C18/Gen_sensors.v); [consts_ok K = true] -- they have the documented
+   values 0.000147 s/inch, 0.0049 V/cm, 250, 25, 0.00001 V, 0, 0.004, 0.1 -- is
+   re-proved for it by computation. *)
 From Coq Require Import QArith List.
 From RV Require Import Units.Model Units.Proofs.
 Import ListNotations.
@@ -116,51 +123,58 @@ Theorem C18_builtin_chains_qualify : forall u, In u builtin_units ->
   exists ch, chain_of (link_table T) u = Val ch /\ Forall link_scaling (map snd ch).
 Proof. exact (fun u => builtin_chains_scaling T u HT). Qed.
 
+Variable K : sconsts.
+Hypothesis HK : consts_ok K = true.
+
 (* MaxSonarEZPulseWidth.get() / MaxSonarEZAnalog.get() for every output unit *)
 Theorem C18_sonar_scale : forall out r, In out builtin_units ->
-  (exists y, sonar_pw (link_table T) out r = Val y /\
+  (exists y, sonar_pw K (link_table T) out r = Val y /\
              y == (r / (147 # 1000000)) * metres_per u_inch / metres_per out) /\
-  (exists y, sonar_an (link_table T) out r = Val y /\
+  (exists y, sonar_an K (link_table T) out r = Val y /\
              y == (r / (49 # 10000)) * metres_per u_centimeter / metres_per out).
 Proof.
-  exact (fun out r H => conj (sonar_pw_scale T out r HT H) (sonar_an_scale T out r HT H)).
+  exact (fun out r H => conj (sonar_pw_scale T K out r HT HK H) (sonar_an_scale T K out r HT HK H)).
 Qed.
 
 (* with the default / natural output unit: exactly the scaled reading *)
 Theorem C18_sonar_native : forall r,
-  (exists y, sonar_pw (link_table T) u_inch r = Val y /\ y == r / (147 # 1000000)) /\
-  (exists y, sonar_an (link_table T) u_centimeter r = Val y /\ y == r / (49 # 10000)).
+  (exists y, sonar_pw K (link_table T) u_inch r = Val y /\ y == r / (147 # 1000000)) /\
+  (exists y, sonar_an K (link_table T) u_centimeter r = Val y /\ y == r / (49 # 10000)).
 Proof.
-  exact (fun r => conj (sonar_pw_inches T r HT) (sonar_an_centimetres T r HT)).
+  exact (fun r => conj (sonar_pw_inches T K r HT HK) (sonar_an_centimetres T K r HT HK)).
 Qed.
 
 End Builtin.
 
 (* ---------------- pressure ---------------------------------------- *)
 
+Section PressureSensor.
+Variable K : sconsts.
+Hypothesis HK : consts_ok K = true.
+
 (* [supply s] is Vcc: the constructor's voltage_in, or Vn after calibrate() *)
 Theorem C18_pressure_formula : forall s v,
   (1 # 100000) <= v -> ~ supply s == 0 ->
-  pressure s v = Val (250 * (v / supply s) - 25).
-Proof. exact pressure_formula. Qed.
+  exists y, pressure K s v = Val y /\ y == 250 * (v / supply s) - 25.
+Proof. exact (pressure_formula K HK). Qed.
 
 (* below the documented floor of 0.00001 V: the value at the floor *)
 Theorem C18_pressure_below_floor : forall s v,
   v <= (1 # 100000) -> ~ supply s == 0 ->
-  exists y, pressure s v = Val y /\ y == 250 * ((1 # 100000) / supply s) - 25.
-Proof. exact pressure_below_floor. Qed.
+  exists y, pressure K s v = Val y /\ y == 250 * ((1 # 100000) / supply s) - 25.
+Proof. exact (pressure_below_floor K HK). Qed.
 
 (* never raises: a value for every sensor state and every voltage; 0 exactly
    when the supply voltage is 0 *)
 Theorem C18_pressure_total : forall s v,
-  exists y, pressure s v = Val y /\
-    (supply s == 0 -> y = 0) /\
-    (~ supply s == 0 -> y = 250 * (pymax v v_floor / supply s) - 25).
-Proof. exact pressure_total. Qed.
+  exists y, pressure K s v = Val y /\
+    (supply s == 0 -> y == 0) /\
+    (~ supply s == 0 -> y == 250 * (pymax v (1 # 100000) / supply s) - 25).
+Proof. exact (pressure_total K HK). Qed.
 
 Theorem C18_pressure_zero_branch : forall s v,
-  pressure_try s v = Raise ZeroDivisionError <-> supply s == 0.
-Proof. exact pressure_zero_branch. Qed.
+  pressure_try K s v = Raise ZeroDivisionError <-> supply s == 0.
+Proof. exact (pressure_zero_branch K). Qed.
 
 (* calibrate(p), p >= 0, at ANY voltage v (also below the floor, also
    negative): it does not raise, keeps voltage_in, and the sensor then
@@ -168,25 +182,31 @@ Proof. exact pressure_zero_branch. Qed.
 Theorem C18_calibrated : forall s v p,
   0 <= p ->
   exists s' y,
-    calibrate s v p = Val s' /\ voltage_in s' = voltage_in s /\
-    pressure s' v = Val y /\ y == p.
-Proof. exact calibrated. Qed.
+    calibrate K s v p = Val s' /\ voltage_in s' = voltage_in s /\
+    pressure K s' v = Val y /\ y == p.
+Proof. exact (calibrated K HK). Qed.
 
 (* ... and at any other voltage v' it reports (p + 25) * V'/V - 25 with both
    voltages floored; the calibrated supply voltage is never 0 *)
 Theorem C18_calibrated_general : forall s v p v',
   ~ p == -25 ->
   exists s' y,
-    calibrate s v p = Val s' /\ voltage_in s' = voltage_in s /\
+    calibrate K s v p = Val s' /\ voltage_in s' = voltage_in s /\
     ~ supply s' == 0 /\
-    pressure s' v' = Val y /\
-    y == (p + 25) * (pymax v' v_floor / pymax v v_floor) - 25.
-Proof. exact calibrated_general. Qed.
+    pressure K s' v' = Val y /\
+    y == (p + 25) * (pymax v' (1 # 100000) / pymax v (1 # 100000)) - 25.
+Proof. exact (calibrated_general K HK). Qed.
 
 (* outside the property's domain (p >= 0): calibrate(-25) raises *)
 Theorem C18_calibrate_minus25_raises : forall s v p,
-  p == -25 -> calibrate s v p = Raise ZeroDivisionError.
-Proof. exact calibrate_raises. Qed.
+  p == -25 -> calibrate K s v p = Raise ZeroDivisionError.
+Proof. exact (calibrate_raises K HK). Qed.
+
+(* the two voltage floors of a checked record are positive *)
+Theorem C18_floor_positive : 0 < c_floor K /\ 0 < c_cal_floor K.
+Proof. exact (consts_ok_floor_pos K HK). Qed.
+
+End PressureSensor.
 
 (* ---------------- non-vacuity -------------------------------------- *)
 
@@ -263,13 +283,30 @@ Example C18_nv_cycle :
 Proof. reflexivity. Qed.
 
 (* pressure: the repository's own test points (3.3 V supply, 2.0 V reading) *)
+Example C18_nv_consts_ok : consts_ok doc_consts = true.
+Proof. vm_compute. reflexivity. Qed.
+(* ... other fractions with the same values pass, other values do not *)
+Example C18_nv_consts_ok_other_fractions :
+  consts_ok {| c_pw_unit := 3; c_pw_div := 294 # 2000000; c_an_unit := 1; c_an_div := 49 # 10000;
+               c_scale := 500 # 2; c_offset := 25; c_floor := 1 # 100000; c_zero := 0 # 5;
+               c_cal_floor := 2 # 200000; c_cal_slope := 1 # 250; c_cal_off := 1 # 10 |} = true.
+Proof. vm_compute. reflexivity. Qed.
+Example C18_nv_consts_ok_rejects :
+  consts_ok {| c_pw_unit := 3; c_pw_div := 174 # 1000000; c_an_unit := 1; c_an_div := 49 # 10000;
+               c_scale := 250; c_offset := 25; c_floor := 1 # 100000; c_zero := 0;
+               c_cal_floor := 1 # 100000; c_cal_slope := 4 # 1000; c_cal_off := 1 # 10 |} = false
+  /\ consts_ok {| c_pw_unit := 3; c_pw_div := 147 # 1000000; c_an_unit := 1; c_an_div := 49 # 10000;
+               c_scale := 501 # 2; c_offset := 25; c_floor := 1 # 100000; c_zero := 0;
+               c_cal_floor := 1 # 100000; c_cal_slope := 4 # 1000; c_cal_off := 1 # 10 |} = false.
+Proof. split; vm_compute; reflexivity. Qed.
+
 Example C18_nv_pressure :
-  exists y, pressure (new_sensor (33 # 10)) 2 = Val y /\ y == 4175 # 33 /\
-  pressure (new_sensor 0) 2 = Val 0.
+  exists y, pressure doc_consts (new_sensor (33 # 10)) 2 = Val y /\ y == 4175 # 33 /\
+  pressure doc_consts (new_sensor 0) 2 = Val 0.
 Proof. eexists. split; [reflexivity|]. split; vm_compute; reflexivity. Qed.
 Example C18_nv_calibrated :
-  exists s' y, calibrate (new_sensor (33 # 10)) 2 50 = Val s' /\ supply s' == 20 # 3 /\
-               pressure s' 2 = Val y /\ y == 50.
+  exists s' y, calibrate doc_consts (new_sensor (33 # 10)) 2 50 = Val s' /\ supply s' == 20 # 3 /\
+               pressure doc_consts s' 2 = Val y /\ y == 50.
 Proof.
   eexists. eexists. split; [reflexivity|]. split; [vm_compute; reflexivity|].
   split; [reflexivity|]. vm_compute. reflexivity.
@@ -297,3 +334,4 @@ Print Assumptions C18_pressure_zero_branch.
 Print Assumptions C18_calibrated.
 Print Assumptions C18_calibrated_general.
 Print Assumptions C18_calibrate_minus25_raises.
+Print Assumptions C18_floor_positive.
